@@ -186,6 +186,25 @@ def rejection(job):
                               "vf.props.C15:concrete_reject", inputs)
             if n == 0:
                 job.vacuity["failed"].append("no path for %s/%s" % (typ, side))
+        # rejection does not depend on what was converted before in the same interpreter (1 and 2 earlier conversions)
+        import attr
+        fmix = _float_mix(18.02, 46.07)
+        for k in (1, 2):
+            for side, dom in (("below", [p.t < 0]), ("above", [p.t > 1])):
+                def after(k=k):
+                    attr.validators.set_disabled(False)
+                    for i in range(k):
+                        c = Composition(p=0.3, type="weight" if i % 2 == 0 else "molar")
+                        (c.to_molar if i % 2 == 0 else c.to_weight)(fmix)
+                    return Composition(p=p, type=typ)
+
+                for leaf in job.explore(after, dom):
+                    ok = leaf.kind == "raised" and isinstance(leaf.value, ValueError)
+                    if ok:
+                        job.record("C15/reject/%s/%s/after_%d_conversions" % (typ, side, k), "discharged", "leaf raises ValueError")
+                    else:
+                        job.prove("C15/reject/%s/%s/after_%d_conversions" % (typ, side, k), dom + leaf.pc, z3.BoolVal(True), "vf.props.C15:concrete_reject", inputs)
+        attr.validators.set_disabled(False)
         job.refute_concretely("C15/reject/%s/non_finite" % typ, "vf.props.C15:concrete_nonfinite", {"type": typ})
         ret = [l for l in job.explore(lambda: Composition(p=p, type=typ), [p.t >= 0, p.t <= 1]) if l.kind == "returned"]
         job.vacuity["checked"] += 1
@@ -210,11 +229,22 @@ def concrete_reject(inp):
     p = inp.get("p")
     if p is None or 0 <= p <= 1:
         return {"ok": True, "detail": "in range"}
-    try:
-        Composition(p=p, type="weight")
-    except ValueError:
-        return {"ok": True, "detail": "raised"}
-    return {"ok": False, "detail": "Composition(p=%r) was accepted" % p, "inputs": {"p": p}}
+    import attr
+    attr.validators.set_disabled(False)
+    mix = _float_mix(18.02, 46.07)
+    # on its own, and after one, two and three conversions made earlier in the same interpreter
+    for k in range(4):
+        for typ in ("weight", "molar"):
+            try:
+                Composition(p=p, type=typ)
+            except ValueError:
+                continue
+            attr.validators.set_disabled(False)
+            return {"ok": False, "detail": "Composition(p=%r, %s) was accepted after %d earlier conversion(s)" % (p, typ, k), "inputs": {"p": p}}
+        c = Composition(p=0.3, type="weight" if k % 2 == 0 else "molar")
+        (c.to_molar if k % 2 == 0 else c.to_weight)(mix)
+    attr.validators.set_disabled(False)
+    return {"ok": True, "detail": "raised"}
 
 
 XHAIR = '''
